@@ -215,3 +215,101 @@ def legs_c18(res, env, only=None):
             else:
                 res.violation("C18/crash", "workload under valgrind exited with %s: %s" % (rc, (out or "")[-200:].replace("\n", " | ")), out or "", "valgrind")
             res.legs.append({"leg": "valgrind", "tool": "valgrind memcheck --leak-check=full", "values_checked": int(m.group(1)) if m else 0, "exit": rc, "wall_s": round(time.time() - t0, 1)})
+
+
+# ------------------------------------------------------------------------------------------------------
+# ThreadSanitizer legs (thorough): C12 thread battery, C06 rayon reduction
+
+def tsan_build(env):
+    e = dict(env)
+    e["RUSTFLAGS"] = "-Zsanitizer=thread"
+    e["CARGO_TARGET_DIR"] = os.path.join(TARGET, "tsan")
+    rc, out = run(["cargo", "+nightly", "build", "--release", "--offline", "--quiet", "-Zbuild-std", "--target", "x86_64-unknown-linux-gnu"], e, 3600, cwd=HARNESS)
+    binp = os.path.join(TARGET, "tsan", "x86_64-unknown-linux-gnu", "release", "pmhv")
+    if rc != 0 or not os.path.exists(binp):
+        return None, (out or "")[-400:]
+    return binp, ""
+
+
+def tsan_leg(res, env, pid, cell, tier_for_run):
+    t0 = time.time()
+    binp, err = tsan_build(env)
+    if binp is None:
+        res.inconclusive.append("tsan build failed: %s" % err.replace("\n", " | "))
+        return
+    e = dict(env)
+    e["TSAN_OPTIONS"] = "halt_on_error=0:exitcode=66:second_deadlock_stack=1"
+    e["PMHV_EVIDENCE"] = os.path.join(TARGET, "tsan-evidence-%s.json" % pid)
+    rc, out = run([binp, "run", pid, "--tier", tier_for_run, "--seed", str(res.seed), "--cell", cell], e, 3600, cwd=VERIF)
+    nrep = len(re.findall(r"WARNING: ThreadSanitizer", out or ""))
+    summ = re.search(r"SUMMARY property=\S+ .*evaluations=(\d+)", out or "")
+    if rc is None:
+        res.inconclusive.append("tsan run of %s/%s timed out" % (pid, cell))
+    elif nrep > 0:
+        first = re.search(r"WARNING: ThreadSanitizer: ([^\n]*)", out)
+        res.violation("%s/tsan" % pid, "ThreadSanitizer: %d report(s), first: %s (first crate frame %s)" % (nrep, first.group(1) if first else "?", first_repo_frame(out)), out, "tsan")
+    elif summ is None:
+        res.inconclusive.append("tsan run of %s/%s did not complete (exit %s): %s" % (pid, cell, rc, (out or "")[-200:].replace("\n", " | ")))
+    elif "VIOLATION" in (out or ""):
+        res.violation("%s/tsan-run-mismatch" % pid, "the %s cell reports a violation when run under TSan: %s" % (cell, [l for l in out.splitlines() if "key=" in l][:1]), out, "tsan")
+    if summ:
+        res.evaluations += int(summ.group(1))
+    res.legs.append({"leg": "tsan", "tool": "rustc nightly -Zsanitizer=thread -Zbuild-std", "cell": cell, "reports": nrep, "evaluations_under_tsan": int(summ.group(1)) if summ else 0,
+                     "exit": rc, "wall_s": round(time.time() - t0, 1)})
+
+
+def legs_c12(res, env, only=None):
+    if res.tier == "thorough" or only == "tsan":
+        tsan_leg(res, env, "C12", "threads", "quick")
+
+
+def legs_c06(res, env, only=None):
+    if res.tier == "thorough" or only == "tsan":
+        tsan_leg(res, env, "C06", "sched", "quick")
+
+
+# ------------------------------------------------------------------------------------------------------
+# C20 thorough: real crashes injected with strace (kill inside the k-th write to parameters.json)
+
+def legs_c20(res, env, only=None):
+    if res.tier != "thorough" and only != "strace":
+        return
+    t0 = time.time()
+    if shutil.which("strace") is None:
+        res.inconclusive.append("strace not found")
+        return
+    base = os.path.join(TARGET, "tmp", "c20-strace-%d" % os.getpid())
+    shutil.rmtree(base, ignore_errors=True)
+    os.makedirs(base)
+    tuples = [("1.001", "4096", "20", "65534"), ("1.9999999999999998", "18446744073709551615", "1e-300", "0"), ("1.5", "1", "0.1", "4294967297"),
+              ("1.0000000000000002", "123456789", "33.333333333333336", "77")]
+    ninj = 0
+    outcomes = {}
+    for ti, t in enumerate(tuples):
+        for when in (1, 2, 3):
+            for mode in ("kill", "error"):
+                d = os.path.join(base, "t%d-w%d-%s" % (ti, when, mode))
+                os.makedirs(d)
+                inj = "inject=write:signal=KILL:when=%d" % when if mode == "kill" else "inject=write:error=ENOSPC:when=%d" % when
+                rc, out = run(["strace", "-f", "-o", "/dev/null", "-P", os.path.join(d, "parameters.json"), "-e", "trace=write", "-e", inj,
+                               BIN, "child", "c20dump", d] + list(t), env, 120)
+                ninj += 1
+                fpath = os.path.join(d, "parameters.json")
+                size = os.path.getsize(fpath) if os.path.exists(fpath) else -1
+                rc2, out2 = run([BIN, "child", "c20reload", d], env, 120)
+                line = [l for l in (out2 or "").splitlines() if l.startswith("RELOAD")]
+                line = line[0] if line else "RELOAD ? (exit %s)" % rc2
+                kind = line.split()[1] if len(line.split()) > 1 else "?"
+                outcomes[kind] = outcomes.get(kind, 0) + 1
+                dumped_ok = out is not None and "DUMP OK" in out
+                if kind == "PANIC" or rc2 not in (0,):
+                    res.violation("C20/torn-file-panics", "after an injected %s in write #%d of the dump (file size %d) a fresh process reloading aborts: %s" % (mode, when, size, line), (out or "") + "\n" + (out2 or ""), "strace")
+                elif kind == "OK":
+                    # acceptable only if the file is complete and the parameters are the dumped ones
+                    vals = line.split()[2:]
+                    same = len(vals) == 4 and float(vals[0]) == float(t[0]) and int(vals[1]) == int(t[1]) and float(vals[2]) == float(t[2]) and int(vals[3]) == int(t[3])
+                    if not same:
+                        res.violation("C20/torn-file-accepted", "after an injected %s in write #%d (dump said ok=%s, file size %d) reload returns other parameters: %s" % (mode, when, dumped_ok, size, line), (out or "") + "\n" + (out2 or ""), "strace")
+    shutil.rmtree(base, ignore_errors=True)
+    res.evaluations += ninj
+    res.legs.append({"leg": "strace", "tool": "strace -P parameters.json -e inject=write:signal=KILL|error=ENOSPC:when=k", "injections": ninj, "reload_outcomes": outcomes, "wall_s": round(time.time() - t0, 1)})
